@@ -8,6 +8,7 @@ import Driver.Cli
 import Driver.Kytea
 import Driver.TrainCli
 import Driver.Ac
+import Driver.Examples
 /-! `vdriver`: reads one case per line on stdin, writes one response line per case. -/
 open V V.Drv
 
@@ -32,6 +33,8 @@ def handle (line : String) : String :=
   | "TR" :: cfg :: _solver :: dict :: tagdict :: corpus :: _eval :: trace :: _ => runTR cfg dict tagdict corpus trace
   | "TL" :: fl :: cfg :: _solver :: tok :: part :: dict :: _ => runTL fl cfg tok part dict
   | "AC" :: _kind :: pats :: text :: _ => runAC pats text
+  | "WA" :: m :: msgs :: cl :: _ => runWA m msgs cl
+  | "EB" :: m :: texts :: _ => runEB m texts
   | "TK" :: m :: ws :: h :: cl :: _ => runTK m ws h cl
   | "N" :: h :: _ => runN h
   | "B" :: r => runBin ("B" :: r)
